@@ -262,6 +262,9 @@ func (rm *Manager) findRelatedParents(relatedSlice ...*unstructured.Unstructured
 			}
 
 			for _, relatedRule := range customizeHookResponse.RelatedResourceRules {
+				if relatedRule == nil {
+					continue
+				}
 				for _, related := range relatedSlice {
 					parentGroup, _ := schema.ParseGroupVersion(parent.GetAPIVersion())
 					parentResource := rm.parentKinds.Get(schema.GroupKind{Group: parentGroup.Group, Kind: parent.GetKind()})
@@ -384,6 +387,9 @@ func (rm *Manager) GetRelatedObjects(parent *unstructured.Unstructured) (commonv
 	}
 
 	for _, relatedRule := range customizeHookResponse.RelatedResourceRules {
+		if relatedRule == nil {
+			continue
+		}
 		relatedClient, informer, err := rm.getRelatedClient(relatedRule.APIVersion, relatedRule.Resource)
 		if err != nil {
 			return nil, err
